@@ -349,15 +349,101 @@ func genJoinCond(g *gen.G, depth int) gen.Expr {
 		if rapid.IntRange(0, 2).Draw(g.T, "crosseq") == 0 {
 			return &gen.Binary{Op: "==", X: &gen.QIdent{Parts: []gen.Ident{{Name: "$left"}, g.Ident()}}, Y: &gen.QIdent{Parts: []gen.Ident{{Name: "$right"}, g.Ident()}}}
 		}
-		side := rapid.SampledFrom([]string{"$left", "$right"}).Draw(g.T, "side")
 		x := g.Expr(depth, gen.ECtx{})
-		// qualify every column reference with the chosen side
-		return qualify(x, side)
+		if rapid.IntRange(0, 1).Draw(g.T, "mixsides") == 0 {
+			// qualify every column reference with one side
+			return qualify(x, rapid.SampledFrom([]string{"$left", "$right"}).Draw(g.T, "side"))
+		}
+		// both sides may occur anywhere, except that `==` never spans them
+		// (only `==` across the sides is rewritten to a plain `=`)
+		return noCrossEq(g, qualifyMixed(g, x))
 	}
 	x := factor()
 	for i, n := 0, rapid.IntRange(0, 2).Draw(g.T, "nfactors"); i < n; i++ {
 		y := factor()
 		x = &gen.Binary{Op: "and", X: parenIf(x, gen.NeedsParenLeft("and", x)), Y: parenIf(y, gen.NeedsParenRight("and", y))}
+	}
+	return x
+}
+
+// qualifyMixed qualifies every column reference with a side drawn per leaf.
+func qualifyMixed(g *gen.G, x gen.Expr) gen.Expr {
+	switch x := x.(type) {
+	case *gen.QIdent:
+		return qualify(x, rapid.SampledFrom([]string{"$left", "$right"}).Draw(g.T, "leafside"))
+	case *gen.Unary:
+		return &gen.Unary{Op: x.Op, X: qualifyMixed(g, x.X)}
+	case *gen.Binary:
+		l := qualifyMixed(g, x.X)
+		return &gen.Binary{Op: x.Op, X: l, Y: qualifyMixed(g, x.Y)}
+	case *gen.In:
+		out := &gen.In{X: qualifyMixed(g, x.X)}
+		for _, v := range x.Vals {
+			out.Vals = append(out.Vals, qualifyMixed(g, v))
+		}
+		return out
+	case *gen.Paren:
+		return &gen.Paren{X: qualifyMixed(g, x.X)}
+	case *gen.Index:
+		b := qualifyMixed(g, x.X)
+		return &gen.Index{X: b, I: qualifyMixed(g, x.I)}
+	case *gen.Call:
+		out := &gen.Call{Func: x.Func, TrailingComma: x.TrailingComma}
+		for _, a := range x.Args {
+			out.Args = append(out.Args, qualifyMixed(g, a))
+		}
+		return out
+	}
+	return x
+}
+
+func mentionsSides(x gen.Expr) (left, right bool) {
+	gen.WalkExpr(x, func(e gen.Expr) {
+		if q, ok := e.(*gen.QIdent); ok && len(q.Parts) > 1 && !q.Parts[0].Quoted {
+			switch q.Parts[0].Name {
+			case "$left":
+				left = true
+			case "$right":
+				right = true
+			}
+		}
+	})
+	return
+}
+
+// noCrossEq turns every `==` whose operands together mention both sides into
+// another comparison operator.
+func noCrossEq(g *gen.G, x gen.Expr) gen.Expr {
+	switch x := x.(type) {
+	case *gen.Unary:
+		return &gen.Unary{Op: x.Op, X: noCrossEq(g, x.X)}
+	case *gen.Binary:
+		l, r := noCrossEq(g, x.X), noCrossEq(g, x.Y)
+		op := x.Op
+		if op == "==" {
+			ll, lr := mentionsSides(l)
+			rl, rr := mentionsSides(r)
+			if (ll || rl) && (lr || rr) {
+				op = rapid.SampledFrom([]string{"!=", "<", ">=", "=~", "!~"}).Draw(g.T, "crossop")
+			}
+		}
+		return &gen.Binary{Op: op, X: l, Y: r}
+	case *gen.In:
+		out := &gen.In{X: noCrossEq(g, x.X)}
+		for _, v := range x.Vals {
+			out.Vals = append(out.Vals, noCrossEq(g, v))
+		}
+		return out
+	case *gen.Paren:
+		return &gen.Paren{X: noCrossEq(g, x.X)}
+	case *gen.Index:
+		return &gen.Index{X: noCrossEq(g, x.X), I: noCrossEq(g, x.I)}
+	case *gen.Call:
+		out := &gen.Call{Func: x.Func, TrailingComma: x.TrailingComma}
+		for _, a := range x.Args {
+			out.Args = append(out.Args, noCrossEq(g, a))
+		}
+		return out
 	}
 	return x
 }
